@@ -164,6 +164,8 @@ class RefsWorld:
                 ops.append({'op': 'src', 's': rng.randrange(ns), 'p': rng.choice(['x', 'y']), 'v': rng.randint(11, 15) if big_v else rng.randint(0, 5)})
             elif k == 'link':
                 ops.append({'op': 'link', 't': t, 'p': pn, 'ref': self.gen_ref(rng, pn, ns)})
+                if ops[-1]['ref']['k'] == 'abind' and rng.random() < 0.25:
+                    ops[-1]['noloop'] = True        # assigned while no event loop is running: complete when the assignment returns
             elif k == 'plain':
                 v = {'a': rng.randint(0, 10), 'b': rng.randint(0, 10), 'c': [rng.randint(0, 9)], 't': f"v{rng.randint(0, 9)}"}[pn]
                 ops.append({'op': 'plain', 't': t, 'p': pn, 'v': v})
@@ -203,8 +205,15 @@ class RefsWorld:
                 ref = self.gen_ref(rng, pn, ns)
                 if ref['k'] in ('bind2',):
                     ref = {'k': 'param', 's': ref['s'], 'p': 'x'}
+                noloop = pn in ('a', 'b') and rng.random() < 0.25
+                if noloop:
+                    # a bound coroutine function assigned while no event loop is running: the executor runs it to completion inside
+                    # the assignment, so an invalid result is a rejected assignment like any other (seeded change C02-m14)
+                    ref = {'k': 'abind', 's': ref['s'], 'p': rng.choice(['x', 'y'])}
                 ops.append({'op': 'src', 's': ref['s'], 'p': ref.get('p', 'x'), 'v': rng.randint(11, 15), 'quiet': True})
                 ops.append({'op': 'link', 't': t, 'p': pn, 'ref': ref})
+                if noloop:
+                    ops[-1]['noloop'] = True
             elif k == 'trigger':
                 ops.append({'op': 'trigger', 't': t, 'p': pn, 'over': rng.random() < 0.4})
             elif k == 'ev_bad':
@@ -378,6 +387,11 @@ class _Run:
     def wcount(self, obj):
         return sum(len(lst) for whats in obj.param.watchers.values() for lst in whats.values())
 
+    def wtable(self, obj):
+        """the watcher table as a sorted list of (parameter, what, callback name): only used to word a C02.watchers violation"""
+        return sorted((pn, what, str(getattr(w.fn, '__qualname__', type(w.fn).__name__))[-48:])
+                      for pn, whats in obj.param.watchers.items() for what, lst in whats.items() for w in lst)
+
     def make_ref(self, ref):
         """Build the real reference object for a spec (may install rx-owned watchers on sources: re-baselined)."""
         param = self.param
@@ -478,7 +492,7 @@ class _Run:
         # the inheriting subclass sees the very Parameter objects of its base (a rejected class-level set must not detach it)
         vals.append(('subcls', repr(self.SubTgt.a), repr(self.SubTgt.t), repr(self.SubTgt.ro)) +
                     tuple(self.SubTgt.param[p] is self.Tgt.param[p] for p in ('a', 't', 'ro', 'k', 'c')))
-        return (vals, len(self.elog))
+        return (vals, len(self.elog), [self.wtable(o) for o in list(self.src) + list(self.tgt)])
 
     def compare_snap(self, snap, what):
         now = self.snapshot()
@@ -488,7 +502,11 @@ class _Run:
         for a, b in zip(snap[0], now[0]):
             if a != b:
                 if a[-1] != b[-1] and a[:-1] == b[:-1]:
-                    self.viol('C02.watchers', f"{what}: watcher table of {a[0]} changed size {a[-1]} -> {b[-1]}")
+                    from collections import Counter
+                    i = [x[0] for x in snap[0]].index(a[0])
+                    gone = sorted((Counter(snap[2][i]) - Counter(now[2][i])).elements())
+                    came = sorted((Counter(now[2][i]) - Counter(snap[2][i])).elements())
+                    self.viol('C02.watchers', f"{what}: watcher table of {a[0]} changed size {a[-1]} -> {b[-1]} (gone {gone}, new {came})")
                 else:
                     self.viol('C02.values', f"{what}: state of {a[0]} changed {a} -> {b}")
                 return
@@ -541,6 +559,16 @@ class _Run:
             if i not in used and self.wcount(s) != self.base[i]:
                 self.viol('C08.leak', f"{where}: source S{i} is referenced by no link but carries {self.wcount(s) - self.base[i]} extra watcher(s)")
                 return
+            # ... and a source that is linked to is watched once per parameter on behalf of a target, however its links came about
+            # (a relink made while another reference of the target could not be resolved left a second watcher behind)
+            for pn, whats in s.param.watchers.items():
+                for what, lst in whats.items():
+                    owners = [id(getattr(getattr(w.fn, '__self__', None), 'self', None)) for w in lst
+                              if getattr(w.fn, '__name__', '') == '_sync_refs']
+                    if len(owners) != len(set(owners)):
+                        self.viol('C08.leak', f"{where}: source S{i}.{pn} carries {len(owners)} synchronisation watchers for "
+                                              f"{len(set(owners))} linked object(s): a link keeps one watcher per source parameter")
+                        return
 
     def tainted_params(self):
         return set(self.tainted)
@@ -772,15 +800,29 @@ class _Run:
             pn, ref = op['p'], op['ref']
             v = eval_ref(ref, self.msrc)
             is_async = ref['k'] == 'abind'
-            ok = (valid_for(pn, v) or is_async) and pn != 'k'
+            noloop = is_async and bool(op.get('noloop'))
+            ok = (valid_for(pn, v) or (is_async and not noloop)) and pn != 'k'
             robj = self.make_ref(ref)
             if pn in self.links[ti]:
                 self.out.stats['probe.relink'] += 1
                 if (ti, pn) in self.pending:
                     self.out.stats['probe.relink_while_async_pending'] += 1
-            if self.attempt(lambda: setattr(t, pn, robj), ok, f"link T{ti}.{pn} <- {ref} (resolves to {v!r})", ti, pn):
+            def assign():
+                if not noloop:
+                    return setattr(t, pn, robj)
+                # no running event loop for the duration of this assignment: param's executor runs the coroutine to completion
+                # on a loop of its own before the assignment returns (or raises what the coroutine's result is rejected with)
+                self.loop.uninstall()
+                try:
+                    setattr(t, pn, robj)
+                finally:
+                    self.loop.install()
+                self.out.stats['probe.async_reference_assigned_without_running_loop'] += 1
+            if noloop and not ok:
+                self.out.stats['fault.invalid_async_result_without_running_loop'] += 1
+            if self.attempt(assign, ok, f"link T{ti}.{pn} <- {ref}{' (no running loop)' if noloop else ''} (resolves to {v!r})", ti, pn):
                 self.links[ti][pn] = ref
-                if is_async:
+                if is_async and not noloop:
                     self.pending.add((ti, pn))
                 else:
                     self.mval[ti][pn] = v
